@@ -246,7 +246,7 @@ def make_frame(gen, rnd, w, combo, obs, kinds=None, big=False):
             + rnd.randbytes(st - 9) for a in ids]))
     if kind == "error":
         a = rnd.choice(ac_ids + [9])
-        return con.f_ext(0xFF10, R.error_body(a, rnd.choice([None, "ER: 01", "Zx"])))
+        return con.f_ext(0xFF10, R.error_body(a, rnd.choice([None, "ER: 01", "Zx", "Fault  ", " E 7 "])))
     if kind == "version":
         obs["version_frames"] = obs.get("version_frames", 0) + 1
         sep = "|" if gen == 4 else ","
